@@ -110,7 +110,8 @@ check("C16", "model_checking",
       "(DTLZ1 also k = 1, 2, 5), Python floats and numpy scalars, are evaluated by the real classes; BenchTrace compares every objective "
       "with the model's exact rational (reduced-fraction equality, no tolerance beyond 2e-11 projection), ZDT1 exactly where the root is "
       "rational and by a square-root-free fixed-point identity elsewhere; a second part evaluates lattice points from four threads "
-      "on ONE problem object (re-entrancy, as artap's threaded evaluation does). Right level for an index-structure property: a wrong variable "
+      "on ONE problem object (re-entrancy, as artap's threaded evaluation does) and, without leaving it to the scheduler, lets a second "
+      "evaluation on the same object run to completion at every coordinate read of a first one. Right level for an index-structure property: a wrong variable "
       "index, slice or constant changes an exact rational somewhere on the lattice.",
       "trusted: TLC; nearest-rational projection (denominator <= 80000, 2e-11); libm accuracy at the lattice angles; points between lattice "
       "points are not examined", "TLC-checked exact lattice model + TLC validation of real evaluations on the lattice", "DESIGN.md 5/C16")
